@@ -83,13 +83,13 @@ func TestGUIDConversion(t *testing.T) {
 		decExact: true,
 	}
 	s.enc = putEnc(16, s.put)
-	runFlat(t, s, ev.Scale(800, 10000))
+	runFlat(t, s, ev.Scale(2000, 12000))
 	s.truncations(t)
 
 	// the typed EFIGUID route: FromUUID / EFIGUID.Put
 	const name = "abi/efiguid-struct"
 	ev.Rule(name, "random UUIDs; oracle: FromUUID(u) has Data1=BE32(u[0:4]) Data2=BE16(u[4:6]) Data3=BE16(u[6:8]) Data4=u[8:16]; EFIGUID.Put == harness EFI byte order; Put into <16 bytes refused; changing one of Data1/2/3/4 changes exactly bytes [0,4)/[4,6)/[6,8)/[8,16); non-trivial = all; distinct = value class")
-	checks(ev.Scale(800, 10000))
+	checks(ev.Scale(2000, 12000))
 	rapid.Check(t, func(t *rapid.T) {
 		ub := genBytes(t, 16, "uuid")
 		u := toUUID(ub)
@@ -153,7 +153,7 @@ func TestFwGUIDEntry(t *testing.T) {
 		},
 	}
 	s.enc = putEnc(s.size, s.put)
-	runFlat(t, s, ev.Scale(800, 10000))
+	runFlat(t, s, ev.Scale(2000, 12000))
 	s.truncations(t)
 }
 
@@ -172,7 +172,7 @@ func TestSevMetadata(t *testing.T) {
 		},
 	}
 	s.enc = putEnc(s.size, s.put)
-	runFlat(t, s, ev.Scale(800, 10000))
+	runFlat(t, s, ev.Scale(2000, 12000))
 	s.truncations(t)
 	// the signature constant must spell "ASEV" in memory order
 	b, _ := s.enc([]val{{u: oabi.SevSnpMetadataSignature}, {}, {}, {}})
@@ -196,7 +196,7 @@ func TestSevMetadataSection(t *testing.T) {
 		},
 	}
 	s.enc = putEnc(s.size, s.put)
-	runFlat(t, s, ev.Scale(800, 10000))
+	runFlat(t, s, ev.Scale(2000, 12000))
 	s.truncations(t)
 }
 
@@ -218,7 +218,7 @@ func TestMetadataOffset(t *testing.T) {
 		},
 	}
 	s.enc = putEnc(s.size, s.put)
-	runFlat(t, s, ev.Scale(800, 10000))
+	runFlat(t, s, ev.Scale(2000, 12000))
 	s.truncations(t)
 }
 
@@ -243,7 +243,7 @@ func TestSevEsResetBlock(t *testing.T) {
 		decExact: true,
 	}
 	s.enc = putEnc(s.size, s.put)
-	runFlat(t, s, ev.Scale(800, 10000))
+	runFlat(t, s, ev.Scale(2000, 12000))
 	s.truncations(t)
 
 	const name = "abi/resetblock-range"
@@ -314,7 +314,7 @@ func sectionToVals(m *oabi.TDXMetadataSection) []val {
 
 func TestTDXMetadataDescriptor(t *testing.T) {
 	s := tdxDescFlat()
-	runFlat(t, s, ev.Scale(800, 10000))
+	runFlat(t, s, ev.Scale(2000, 12000))
 	s.truncations(t)
 	b, _ := s.enc([]val{{u: oabi.TDXMetadataDescriptorMagic}, {}, {}, {}})
 	if string(b[:4]) != "TDVF" {
@@ -336,7 +336,7 @@ func TestTDXMetadataSection(t *testing.T) {
 		},
 	}
 	s.enc = putEnc(s.size, s.put)
-	runFlat(t, s, ev.Scale(800, 10000))
+	runFlat(t, s, ev.Scale(2000, 12000))
 	s.truncations(t)
 }
 
@@ -391,7 +391,7 @@ func TestTDXMetadata(t *testing.T) {
 	ev.Rule(name, "TDX metadata = descriptor + 0..6 sections, all fields boundary-biased, SectionCount == len(Sections); oracle: Size() and encoding == descriptor image followed by 32-byte section images at 16+32*i (harness tables), FromBytes(Put(v)) == v, buffer one byte short refused, SectionCount != len(Sections) refused, nil header refused; byte strings: truncate at any k / extend / change the count field (<= 4096: the uint32 count*32 wrap belongs to C08) => accepted implies Put(decode(b)) == b[:16+32*count]; non-trivial = >=1 section or a refused/edited string; distinct = (class, section count)")
 	desc := tdxDescFlat()
 	sec := &flat{size: 32, flds: tdxSectionFlds}
-	checks(ev.Scale(800, 10000))
+	checks(ev.Scale(2000, 12000))
 	rapid.Check(t, func(t *rapid.T) {
 		n := rapid.IntRange(0, 6).Draw(t, "nsec")
 		hv := make([]val, 4)
